@@ -43,8 +43,12 @@ unsigned it_tail_cas, it_head_cas, it_reclaims; _Bool it_head_cas_ok; word_t it_
   it_tail_cas = 0; it_head_cas = 0; it_reclaims = 0; it_head_cas_ok = 0
 
 /* ---- guard_ptr contract stubs ---- */
-#define G_acquire(g, cell, order) ((g) = A_LOAD(cell, order), it_guard = (g), it_acquired = 1, it_next_acquired = 0, it_head_validated = 0, it_tail_read = 0)
-#define G_acquire_guard(cell, order) (it_next_val = A_LOAD(cell, order), it_next_acquired = (it_acquired && (void*)&(cell) == (void*)&a_next[nidx(it_guard) % NN]), it_next_val)
+/* sync preconditions (memory orders are data in the model): the loads through which a node published by another thread is reached are acquire-or-stronger */
+_Bool sync_weak_acquire;      /* sticky: a guard acquisition of _head/_tail, the successor acquisition, or the successor load of push used an order weaker than acquire */
+#define G_acquire(g, cell, order) ((g) = A_LOAD(cell, order), it_guard = (g), it_acquired = 1, it_next_acquired = 0, it_head_validated = 0, it_tail_read = 0, \
+                                   sync_weak_acquire = sync_weak_acquire || !XV_IS_ACQUIRE(order))
+#define G_acquire_guard(cell, order) (it_next_val = A_LOAD(cell, order), it_next_acquired = (it_acquired && (void*)&(cell) == (void*)&a_next[nidx(it_guard) % NN]), \
+                                      sync_weak_acquire = sync_weak_acquire || !XV_IS_ACQUIRE(order), it_next_val)
 #define G_reclaim(g) (g_reclaim(g), (g) = 0)
 /* guard_ptr(p) from a raw marked_ptr: the object must already be safe from reclamation (null, or still protected by another guard of this thread) */
 #define G_from_raw(p) (it_raw_guards++, (guard_ptr)(p))
@@ -145,7 +149,7 @@ static void XV_DELETE_NODE(marked_ptr w) {
 #define IT_GI (nidx(it_guard) % NN)
 static void mon_load(void* addr, uint64_t v, int o) {
   if (!mon_check || !it_acquired) return;
-  if (addr == (void*)&a_next[IT_GI]) it_next_val = (word_t)v;
+  if (addr == (void*)&a_next[IT_GI]) { it_next_val = (word_t)v; if (mon_check == 1 && !XV_IS_ACQUIRE(o)) sync_weak_acquire = 1; }      /* push: next of the protected tail node */
   if (addr == (void*)&mon_q->_head && it_next_acquired) { it_head_seen = (word_t)v; it_head_validated = ((word_t)v == it_guard); }
   if (addr == (void*)&mon_q->_tail && it_next_acquired) { it_tail_seen = (word_t)v; it_tail_read = 1; }
 }
@@ -187,6 +191,7 @@ static _Bool same(struct node a, struct node b) {
   return a.next == b.next && a.data == b.data && a.dstate == b.dstate && a.live == b.live && a.retired == b.retired && a.deleted == b.deleted;
 }
 static void reset_ghost(void) {
+  sync_weak_acquire = 0;
   g_alloc_count = 0; g_delete_count = 0; g_ctor_T = 0; g_dtor_T = 0; g_moves = 0; g_alloc_may_fail = 0; mon_check = 0; g_last_alloc = 0; xv_threw = 0;
   IT_RESET; it_guard = 0;
 }
@@ -369,6 +374,7 @@ void h_push_int(void) {
   msq_push_cut(&q, g_value);
   env_on = 0;
   XV_OBL("msq.push.commit", xv_threw == 0 && g_last_alloc == NPTR(3) && it_link_tried && it_link_ok && it_tail_cas == 1);
+  XV_OBL("msq.sync.acquire", !sync_weak_acquire);
   XV_OBL("msq.push.owns", g_ctor_T == 1 && g_dtor_T == 0 && g_delete_count == 0);
   XV_CANARY("push_int.linked");
 #endif
@@ -389,5 +395,6 @@ void h_pop_node_int(void) {
     XV_CANARY("pop_node_int.empty");
   }
   XV_OBL("msq.pop.frame", g_alloc_count == 0 && g_delete_count == 0 && g_dtor_T == 0 && g_moves == 0);
+  XV_OBL("msq.sync.acquire", !sync_weak_acquire);
 #endif
 }
